@@ -502,9 +502,14 @@ class UpdateCollection(Message):
                         withdraws = b''
                     mp_unreach = mpurnlri
 
-            yield self._message(
-                UpdateCollection.prefix(withdraws) + UpdateCollection.prefix(mp_unreach + attr + mp_reach) + announced,
-            )  # yield mpr/mpur per family
+            # with include_withdraw False a family holding only withdraws has nothing to send: an
+            # UPDATE without any NLRI would be read by the peer as an End-of-RIB marker
+            if mp_reach or mp_unreach or announced or withdraws:
+                yield self._message(
+                    UpdateCollection.prefix(withdraws)
+                    + UpdateCollection.prefix(mp_unreach + attr + mp_reach)
+                    + announced,
+                )  # yield mpr/mpur per family
             withdraws = b''
             announced = b''
 
